@@ -56,6 +56,8 @@ type PlayRec struct {
 	Timeout bool     `json:"timeout"` // watchdog fired
 	DurUs   int64    `json:"dur_us"`
 	Feat    []string `json:"feat"`
+	Big     bool     `json:"big"`    // a large play of a file whose events all carry different bytes: judged with the claims below (spec/Trace_PlayerBig.tla)
+	Claims  [][]int  `json:"claims"` // big plays: per send, the event with these bytes [track, index] (1-based; [0, 0] = the file has no such event)
 }
 
 // ---- recording fake port -------------------------------------------------------------------------------
@@ -99,7 +101,7 @@ var _ drivers.Out = (*fakeOut)(nil)
 
 func runPlay(rec *PlayRec) {
 	rec.Ev = "play"
-	rec.Tracks, rec.Sends = [][]Ev{}, []Send{}
+	rec.Tracks, rec.Sends, rec.Claims = [][]Ev{}, []Send{}, [][]int{}
 	rec.Rerr, rec.Err, rec.Panic, rec.Timeout = "", "", "", false
 
 	// what the library says the file contains: every track, every event, with its scheduled time
@@ -189,6 +191,28 @@ func runPlay(rec *PlayRec) {
 	lg.mu.Lock()
 	rec.Sends = append([]Send{}, lg.sends...)
 	lg.mu.Unlock()
+	rec.Claims = [][]int{}
+	if rec.Big { // every event of such a file carries its own bytes: a send names its event (TLC checks the bytes, port and time of the named event)
+		where := map[string][]int{}
+		for k, t := range rec.Tracks {
+			for i, e := range t {
+				if len(e.M) > 0 && e.M[0] == 0xFF {
+					continue
+				}
+				if _, dup := where[string(e.M)]; dup {
+					hx.Die("big play: two events of the file carry the same bytes", e.M)
+				}
+				where[string(e.M)] = []int{k + 1, i + 1}
+			}
+		}
+		for _, sd := range rec.Sends {
+			if c, ok := where[string(sd.M)]; ok {
+				rec.Claims = append(rec.Claims, c)
+			} else {
+				rec.Claims = append(rec.Claims, []int{0, 0})
+			}
+		}
+	}
 }
 
 // ---- generator ------------------------------------------------------------------------------------------
@@ -535,7 +559,17 @@ func cmdGen(args []string) {
 	out := fs.String("out", "", "output NDJSON")
 	par := fs.Int("par", 4, "plays executed concurrently (only a lower bound on instants is ever judged)")
 	long := fs.Int("long", 0, "extra plays with one pause of more than five seconds")
+	huge := fs.Int("huge", 0, "instead of the random plays: ONE play of a file with this many events in its first track (every event distinguishable)")
 	fs.Parse(args)
+	if *huge > 0 {
+		rec := &PlayRec{ID: 0}
+		(&gen{r: rand.New(rand.NewSource(*seed))}).huge(rec, *huge)
+		runPlay(rec)
+		w := hx.Create(*out)
+		w.Put(rec)
+		w.Close()
+		return
+	}
 	g := &gen{r: rand.New(rand.NewSource(*seed))}
 	recs := make([]*PlayRec, *n)
 	for i := range recs {
@@ -580,6 +614,59 @@ func (g *gen) longPause(rec *PlayRec) {
 	rec.Ports = []PortKV{{0, 10}, {1, 11}}
 	rec.Prior = []PortKV{}
 	rec.Feat = []string{"long_pause", "ports_own", "sel_all"}
+}
+
+// huge: a dense file -- n channel messages in the first track, 1000 per tick, a few hundred more in two other tracks, one tick
+// = one microsecond (so that the play takes no time); every event carries its position in its bytes.
+func (g *gen) huge(rec *PlayRec, n int) {
+	r := g.r
+	if n > 1<<18 {
+		hx.Die("huge: at most 2^18 distinguishable note-on messages")
+	}
+	s := smf.NewSMF1()
+	s.TimeFormat = smf.MetricTicks(960)
+	var t0 smf.Track
+	t0.Add(0, smf.MetaTempo(62500)) // 960 us per quarter note
+	for i := 0; i < n; i++ {
+		d := uint32(0)
+		if i > 0 && i%1000 == 0 {
+			d = 1
+		}
+		t0.Add(d, midi.NoteOn(uint8(i>>14)&15, uint8(i>>7)&127, uint8(i)&127))
+	}
+	t0.Close(0)
+	s.Add(t0)
+	last := uint32(n / 1000)
+	for t := 1; t <= 2; t++ {
+		var tr smf.Track
+		m := 200 + r.Intn(300)
+		at := uint32(0)
+		for i := 0; i < m; i++ {
+			d := uint32(0)
+			if at < last && r.Intn(2) == 0 {
+				d = uint32(1 + r.Intn(2))
+			}
+			at += d
+			if t == 1 {
+				tr.Add(d, midi.ControlChange(uint8(i>>14)&15, uint8(i>>7)&127, uint8(i)&127))
+			} else {
+				tr.Add(d, midi.PolyAfterTouch(uint8(i>>14)&15, uint8(i>>7)&127, uint8(i)&127))
+			}
+		}
+		tr.Close(uint32(r.Intn(2)))
+		s.Add(tr)
+	}
+	var buf bytes.Buffer
+	if _, err := s.WriteTo(&buf); err != nil {
+		hx.Die("building the huge file failed", err)
+	}
+	rec.File = append(hx.B{}, buf.Bytes()...)
+	rec.Sel = []int{}
+	rec.Mode = "multi"
+	rec.Ports = []PortKV{{0, 10}, {1, 11}, {2, 10}}
+	rec.Prior = []PortKV{}
+	rec.Big = true
+	rec.Feat = []string{"huge", "sel_all"}
 }
 
 func cmdRerun(args []string) {
